@@ -22,11 +22,11 @@
                           [with_panic]: a panic is a failing directive executed after all the others)
      proxy/setup.go       the health-check worker of an upstream is started by an OnStartup callback of the
      proxy/upstream.go    instance (nothing runs while the directive is parsed: a validation, or a configuration
-                          rejected by a later directive, starts nothing) and stopped by its OnShutdown callback;
-                          startWithListenerFds runs the OnShutdown callbacks of an instance whose start fails
-                          after its startup callbacks ran.  The model collapses "started by the startup callbacks,
-                          stopped again when the start then fails" to "the workers are added by a start that
-                          succeeds" (observations are made between attempts) ([EProxy], [g_probers])
+                          rejected by a directive or by a failing startup callback of `log` - which comes before
+                          `proxy` in the directive order - starts nothing) and stopped by its OnShutdown callback;
+                          a discarded instance never runs its shutdown callbacks, so when a Listen fails AFTER
+                          the startup callbacks ran, the workers of the rejected configuration go on probing
+                          ([EProxy], [g_probers], [add_probers])
      plugins.go           RegisterEventHook / cloneEventHooks / purgeEventHooks / restoreEventHooks
      onevent/on.go        `on`: registers its hooks in the global registry while the directive is set up
      basicauth/basicauth.go GetHtpasswdMatcher: package-level cache keyed by file name, guarded by a
@@ -199,6 +199,9 @@ Fixpoint probes_of (step : N) (effs : list effect) : list N :=
   | _ :: r => probes_of step r
   end.
 
+Definition add_probers (step : N) (effs : list effect) (g : gstate) : gstate :=
+  set_probers g (g_probers g ++ probes_of step effs).
+
 (* startup callbacks (Logger.Start): the roller of a file is created on first use and kept *)
 Definition add_roller (g : gstate) (f size : N) : gstate :=
   match assoc f (g_rollers g) with
@@ -264,10 +267,13 @@ Definition start_body (step : N) (e : env) (c : cfg) (old : list (addr * N)) (g 
         | ROk =>
             let '(r3, g3, srv) := start_servers old (c_addrs c) g2 [] in
             match r3 with
-            | ROk => (ROk, set_probers g3 (g_probers g3 ++ probes_of step (c_effs c)),
+            (* all startup callbacks ran, those of `proxy` last: the workers are running whatever startServers
+               (which does not look at them) does next *)
+            | ROk => (ROk, add_probers step (c_effs c) g3,
                       Some {| i_cfg := c_id c; i_servers := srv; i_auth := l_auth l; i_log := l_log l;
                               i_probe := probes_of step (c_effs c) |})
-            | x => (x, set_socks g3 (g_socks g3) (g_next g2), None)  (* the identities of the closed sockets are free again *)
+            | x => (x, add_probers step (c_effs c) (set_socks g3 (g_socks g3) (g_next g2)), None)
+                   (* the identities of the closed sockets are free again; nobody stops the workers *)
             end
         | x => (x, g2, None)
         end
@@ -597,8 +603,9 @@ Definition same_but_cache (g g' : gstate) : Prop :=
   g_insts g' = g_insts g /\ g_hooks g' = g_hooks g /\ g_htlock g' = g_htlock g /\
   g_rollers g' = g_rollers g /\ g_socks g' = g_socks g /\ g_next g' = g_next g /\ g_probers g' = g_probers g.
 
-(* two states that differ at most in the roller map (the registry a failed attempt still writes to, F-C08-3),
-   in the list of health-check workers (which no attempt reads) and in what the transparent cache holds *)
+(* two states that differ at most in the two registries a failed attempt whose startup callbacks ran still
+   writes to (the roller map, F-C08-3, and the list of health-check workers, F-C08-5f) and in what the
+   transparent cache holds *)
 Definition same_but_leaks (g g' : gstate) : Prop :=
   g_insts g' = g_insts g /\ g_hooks g' = g_hooks g /\ g_htlock g' = g_htlock g /\
   g_socks g' = g_socks g /\ g_next g' = g_next g.
@@ -610,11 +617,15 @@ Definition lookup_now (e : env) (f u : N) : outcome * option N :=
   else if h_bad h then (RErr, None)
   else match assoc u (h_users h) with Some pw => (ROk, Some pw) | None => (RErr, None) end.
 
-(* the faithful model leaves something behind that matters exactly through the rollers of startup callbacks
-   that ran (the htpasswd cache may change, but it is transparent: it is consulted only for the version of the
-   file that is on disk now; health-check workers are not left behind any more, F-C08-5 fixed) *)
+(* the faithful model leaves something behind that matters exactly through what startup callbacks that ran
+   did: the rollers of `log`, and the health-check workers of `proxy` when a listener then fails to bind (the
+   htpasswd cache may change, but it is transparent: it is consulted only for the version of the file that is on
+   disk now) *)
 Definition harmless0 (m : mode) (c : cfg) : bool :=
-  match m with Validate | Execute => true | _ => no_log (c_effs c) end.
+  match m with
+  | Validate | Execute => true
+  | _ => no_log (c_effs c) && (no_proxy (c_effs c) || negb (existsb is_busy (c_addrs c)))
+  end.
 
 (* only what an attempt reaches matters: nothing of a configuration that does not parse; of one with a
    bad directive the directives before it, without the startup callbacks they merely schedule *)
